@@ -286,3 +286,240 @@ Proof.
   split; [reflexivity|]. split; [reflexivity|]. split; [vm_compute; reflexivity|]. split; [vm_compute; reflexivity|].
   repeat split.
 Qed.
+
+(* ====================================================================================================== *)
+(* octave_write : 1 105 920 valuations (3 x 2^4 x 5 x 2^2 x 3 x 2^6 x 6), one vm_compute pass *)
+Definition w_has_schema (f : wfacts) : bool := w_builtin f || (w_loaded f && w_fields f).
+(* the text that is parsed fails to tokenise/parse: the new content (content / normalize mode) or the existing
+   file (changes mode) *)
+Definition w_parse_fail (f : wfacts) : bool := if w_changes f then w_io f =? 3 else negb (w_pst f =? 0).
+(* lenient + parse_error_policy="salvage": a failed parse is replaced by a fabricated document *)
+Definition w_salvaged (f : wfacts) : bool :=
+  negb (w_changes f) && w_lenient f && (w_policy f =? 1) && negb (w_pst f =? 0).
+Definition w_cas_fail (f : wfacts) : bool := w_base_hash f && (w_io f =? 2).
+Definition w_validated_cond (f : wfacts) : bool :=
+  (w_policy f <? 2) && w_path_ok f && negb (w_content f && w_changes f) &&
+  (if w_changes f
+   then w_exists f && negb (w_io f =? 1) && negb (w_cas_fail f) && negb (w_io f =? 3) && negb (w_io f =? 4)
+   else (w_content f || (w_exists f && negb (w_io f =? 1) && negb (w_cas_fail f)))
+        && negb (w_cas_fail f && w_exists f)
+        && (if w_lenient f then (w_pst f =? 0) || (w_policy f =? 1) else w_pst f =? 0))
+  && w_emit_ok f && w_schema f && w_has_schema f && negb (w_errs f)
+  && ((w_post f <? 2) || ((w_post f =? 3) && negb (w_base_hash f && w_exists f))).  (* the re-check only exists with base_hash *)
+
+Definition wc_sound (f : wfacts) e := implb (vs_is 1 e) (w_schema f && w_has_schema f && negb (w_errs f)).
+Definition wc_unval_schema (f : wfacts) e := implb (negb (w_schema f) || negb (w_has_schema f)) (vs_is 2 e).
+Definition wc_unval_parse (f : wfacts) e := implb (w_parse_fail f && negb (w_salvaged f)) (vs_is 2 e).
+Definition wc_invalid (f : wfacts) e :=
+  implb (vs_is 3 e) ((e_verrs e =? 2) && e_name e && e_version e && w_errs f && w_schema f && w_has_schema f).
+Definition wc_valid_absent (f : wfacts) e := e_valid e =? 0.
+Definition wc_char (f : wfacts) e := Bool.eqb (vs_is 1 e) (w_validated_cond f).
+Definition wc_named (f : wfacts) e := implb (vs_is 1 e) (e_name e && e_version e).
+Definition wc_error_unval (f : wfacts) e := implb (e_status e =? 2) (vs_is 2 e).
+Definition w_clauses := [@c_total wfacts; wc_sound; wc_unval_schema; wc_unval_parse; wc_invalid; wc_valid_absent; wc_char;
+                         wc_named; wc_error_unval].
+Definition write_env0 f := write_env f false false.
+
+Lemma write_all : forall_w (all_clauses write_env0 w_clauses) = true.
+Proof. vm_compute. reflexivity. Qed.
+Lemma write_flags_irrelevant f a b : write_env f a b = write_env0 f.
+Proof. unfold write_env0, write_env. reflexivity. Qed.
+Lemma write_clause f : wf_w f -> exists e, write_env0 f = Some e /\ forall c, In c w_clauses -> c f e = true.
+Proof. intro H. apply (all_clauses_spec write_env0 w_clauses f). exact (forall_w_sound _ write_all f H). Qed.
+Global Opaque write_compiled write_env write_env0.
+Lemma write_get f gh dg e c : wf_w f -> write_env f gh dg = Some e -> In c w_clauses -> c f e = true.
+Proof.
+  intros Hwf He Hin. rewrite write_flags_irrelevant in He. destruct (write_clause f Hwf) as [e' [He' Hc]].
+  rewrite He in He'. inversion He'; subst e'. apply Hc. exact Hin.
+Qed.
+
+Theorem write_status_total f gh dg : wf_w f ->
+  exists e, write_env f gh dg = Some e /\ (vs_is VALIDATED e || vs_is UNVALIDATED e || vs_is INVALID e = true).
+Proof.
+  intro Hwf. rewrite write_flags_irrelevant. destruct (write_clause f Hwf) as [e [He Hc]]. exists e. split; [exact He|].
+  apply (Hc (@c_total wfacts)). cbn; tauto.
+Qed.
+
+Theorem write_validated_sound f gh dg e : wf_w f -> write_env f gh dg = Some e -> e_vs e = VALIDATED ->
+  w_schema f && w_has_schema f && negb (w_errs f) = true.
+Proof.
+  intros Hwf He Hvs. apply (implb_elim (vs_is 1 e)); [|apply eqb_of_eq; exact Hvs].
+  apply (write_get f gh dg e wc_sound Hwf He). cbn; tauto.
+Qed.
+
+Theorem write_unvalidated_on_schema_failure f gh dg e : wf_w f -> write_env f gh dg = Some e ->
+  negb (w_schema f) || negb (w_has_schema f) = true -> e_vs e = UNVALIDATED.
+Proof.
+  intros Hwf He H. apply N.eqb_eq. apply (implb_elim _ _ (write_get f gh dg e wc_unval_schema Hwf He ltac:(cbn; tauto)) H).
+Qed.
+
+(* PARTIAL: a tokenise/parse failure gives UNVALIDATED -- unless lenient + parse_error_policy="salvage" *)
+Theorem write_unvalidated_on_parse_failure_partial f gh dg e : wf_w f -> write_env f gh dg = Some e ->
+  w_parse_fail f = true -> w_salvaged f = false -> e_vs e = UNVALIDATED.
+Proof.
+  intros Hwf He H1 H2. apply N.eqb_eq. apply (implb_elim _ _ (write_get f gh dg e wc_unval_parse Hwf He ltac:(cbn; tauto))).
+  rewrite H1, H2. reflexivity.
+Qed.
+Definition write_unvalidated_on_parse_failure_full : Prop :=
+  forall f gh dg e, wf_w f -> write_env f gh dg = Some e -> w_parse_fail f = true -> e_vs e = UNVALIDATED.
+(* finding C10-salvage-validated: content that does not tokenise, lenient=true, parse_error_policy="salvage",
+   schema=META -> VALIDATED (with schema name and version), file written *)
+Definition salvage_witness : wfacts := mk_wfacts 1 true true false false 0 false true 1 true true true true false false 1.
+Theorem write_unvalidated_on_parse_failure_refuted :
+  exists f e, wf_w f /\ write_env0 f = Some e /\ w_parse_fail f = true /\ e_vs e = VALIDATED /\ e_status e = 1.
+Proof.
+  exists salvage_witness. eexists. split; [unfold wf_w; repeat split|]. split; [vm_compute; reflexivity|]. repeat split.
+Qed.
+Example write_not_salvaged_nonvacuous :
+  exists f, wf_w f /\ w_parse_fail f = true /\ w_salvaged f = false /\ w_schema f = true /\ w_has_schema f = true /\ w_errs f = false.
+Proof. exists (mk_wfacts 0 true true false false 0 false true 1 true true true true false false 1). unfold wf_w. repeat split. Qed.
+
+Theorem write_invalid_has_errors f gh dg e : wf_w f -> write_env f gh dg = Some e -> e_vs e = INVALID ->
+  (e_verrs e =? 2) && e_name e && e_version e && w_errs f && w_schema f && w_has_schema f = true.
+Proof.
+  intros Hwf He Hvs. apply (implb_elim (vs_is 3 e)); [|apply eqb_of_eq; exact Hvs].
+  apply (write_get f gh dg e wc_invalid Hwf He). cbn; tauto.
+Qed.
+
+(* octave_write never carries a `valid` key (so "valid is true exactly when VALIDATED" is about octave_validate) *)
+Theorem write_valid_absent f gh dg e : wf_w f -> write_env f gh dg = Some e -> e_valid e = 0.
+Proof. intros Hwf He. apply N.eqb_eq. apply (write_get f gh dg e wc_valid_absent Hwf He). cbn; tauto. Qed.
+
+Theorem write_validated_iff_cond f gh dg e : wf_w f -> write_env f gh dg = Some e -> vs_is VALIDATED e = w_validated_cond f.
+Proof. intros Hwf He. apply Bool.eqb_prop. apply (write_get f gh dg e wc_char Hwf He). cbn; tauto. Qed.
+
+Theorem write_validated_names_schema f gh dg e : wf_w f -> write_env f gh dg = Some e -> e_vs e = VALIDATED ->
+  e_name e && e_version e = true.
+Proof.
+  intros Hwf He Hvs. apply (implb_elim (vs_is 1 e)); [|apply eqb_of_eq; exact Hvs].
+  apply (write_get f gh dg e wc_named Hwf He). cbn; tauto.
+Qed.
+
+Theorem write_error_is_unvalidated f gh dg e : wf_w f -> write_env f gh dg = Some e -> e_status e = 2 -> e_vs e = UNVALIDATED.
+Proof.
+  intros Hwf He Hs. apply N.eqb_eq. apply (implb_elim _ _ (write_get f gh dg e wc_error_unval Hwf He ltac:(cbn; tauto))).
+  apply eqb_of_eq. exact Hs.
+Qed.
+
+(* re-validation by octave_write itself: normalize mode on the file just written (no content, no changes), same
+   schema argument.  Hypotheses: the written canonical text parses (strictly and leniently: C01/C03); same schema
+   facts (C06; the hermetic frozen@/latest references resolve the same way in the same tool); no validation error
+   in the re-read document when there was none at the decision point of the first call (C09/C11). *)
+Theorem write_revalidate f gh dg e f2 gh2 dg2 e2 :
+  wf_w f -> wf_w f2 -> write_env f gh dg = Some e -> e_vs e = VALIDATED ->
+  w_content f2 = false -> w_changes f2 = false -> w_exists f2 = true -> w_path_ok f2 = true ->
+  w_policy f2 < 2 -> w_io f2 = 0 -> w_post f2 < 2 -> w_emit_ok f2 = true ->
+  w_pst f2 = 0 ->                                                             (* C01 *)
+  w_schema f2 = w_schema f -> w_builtin f2 = w_builtin f -> w_loaded f2 = w_loaded f -> w_fields f2 = w_fields f ->
+  (w_errs f = false -> w_errs f2 = false) ->                                  (* C09 / C11 *)
+  write_env f2 gh2 dg2 = Some e2 -> e_vs e2 = VALIDATED.
+Proof.
+  intros Hwf Hwf2 He Hvs Hc Hch Hex Hpa Hpol Hio Hpost Hem Hpst HS HB HL HF Herr He2.
+  pose proof (write_validated_sound f gh dg e Hwf He Hvs) as Hs.
+  apply andb_true_iff in Hs as [Hs H3]. apply andb_true_iff in Hs as [H1 H2].
+  apply negb_true_iff in H3.
+  apply N.eqb_eq. change (vs_is VALIDATED e2 = true). rewrite (write_validated_iff_cond f2 gh2 dg2 e2 Hwf2 He2).
+  assert (Hhs : w_has_schema f2 = w_has_schema f) by (unfold w_has_schema; rewrite HB, HL, HF; reflexivity).
+  unfold w_validated_cond, w_cas_fail. rewrite Hhs, HS, H1, H2, (Herr H3), Hc, Hch, Hex, Hpa, Hio, Hem, Hpst.
+  apply N.ltb_lt in Hpol. apply N.ltb_lt in Hpost. rewrite Hpol, Hpost. cbn.
+  destruct (w_base_hash f2), (w_lenient f2); reflexivity.
+Qed.
+
+(* re-validation by octave_validate of what octave_write wrote (same, non-hermetic schema name; any profile) *)
+Theorem write_then_validate f gh dg e f2 fx2 d2 gh2 dg2 e2 :
+  wf_w f -> wf_v f2 -> write_env f gh dg = Some e -> e_vs e = VALIDATED ->
+  v_input_ok f2 = true -> v_parse_ok f2 = true ->
+  v_builtin f2 = w_builtin f -> v_loaded f2 = w_loaded f -> v_fields f2 = w_fields f ->
+  (w_errs f = false -> v_errs f2 = false) ->
+  validate_env f2 fx2 d2 gh2 dg2 = Some e2 -> e_vs e2 = VALIDATED.
+Proof.
+  intros Hwf Hwf2 He Hvs Hin Hpo HB HL HF Herr He2.
+  pose proof (write_validated_sound f gh dg e Hwf He Hvs) as Hs.
+  apply andb_true_iff in Hs as [Hs H3]. apply andb_true_iff in Hs as [H1 H2]. apply negb_true_iff in H3.
+  apply N.eqb_eq. change (vs_is VALIDATED e2 = true). rewrite (validate_validated_iff_cond f2 fx2 d2 gh2 dg2 e2 Hwf2 He2).
+  unfold v_validated_cond. rewrite Hin, Hpo, (Herr H3).
+  unfold v_has_schema. rewrite HB, HL, HF. unfold w_has_schema in H2. rewrite H2. reflexivity.
+Qed.
+
+(* ====================================================================================================== *)
+(* octave_eject (20 valuations) and octave_compile_grammar (1536 valuations): always UNVALIDATED, no `valid` *)
+Definition c_always_unval {F} (_ : F) (e : envl) : bool := vs_is 2 e && (e_valid e =? 0) && (e_verrs e =? 0).
+Lemma eject_all : forall_j (all_clauses eject_env [@c_always_unval efacts]) = true.
+Proof. vm_compute. reflexivity. Qed.
+Theorem eject_always_unvalidated f : wf_j f -> exists e, eject_env f = Some e /\ e_vs e = UNVALIDATED /\ e_valid e = 0.
+Proof.
+  intro Hwf. destruct (all_clauses_spec eject_env _ f (forall_j_sound _ eject_all f Hwf)) as [e [He Hc]].
+  exists e. split; [exact He|]. specialize (Hc (@c_always_unval efacts) ltac:(cbn; tauto)). unfold c_always_unval, vs_is in Hc.
+  apply andb_true_iff in Hc as [Hc _]. apply andb_true_iff in Hc as [H1 H2]. split; apply N.eqb_eq; assumption.
+Qed.
+Lemma grammar_all : forall_g (all_clauses grammar_env [@c_always_unval gfacts]) = true.
+Proof. vm_compute. reflexivity. Qed.
+Theorem grammar_always_unvalidated f : wf_g f -> exists e, grammar_env f = Some e /\ e_vs e = UNVALIDATED /\ e_valid e = 0.
+Proof.
+  intro Hwf. destruct (all_clauses_spec grammar_env _ f (forall_g_sound _ grammar_all f Hwf)) as [e [He Hc]].
+  exists e. split; [exact He|]. specialize (Hc (@c_always_unval gfacts) ltac:(cbn; tauto)). unfold c_always_unval, vs_is in Hc.
+  apply andb_true_iff in Hc as [Hc _]. apply andb_true_iff in Hc as [H1 H2]. split; apply N.eqb_eq; assumption.
+Qed.
+
+(* ====================================================================================================== *)
+(* `octave validate` (6144 valuations) and `octave write` (1152 valuations) *)
+Definition cv_final_errs (f : cvfacts) : bool := if cv_fix f && cv_errs_before f then cv_errs_after f else cv_errs_before f.
+Definition cvc_line (f : cvfacts) (e : envl) := e_echo e <? 4.
+Definition cvc_noline (f : cvfacts) (e : envl) := implb (e_echo e =? 0) (e_exit e =? 1).
+Definition cvc_invalid_exit (f : cvfacts) (e : envl) := implb (e_echo e =? 3) (e_exit e =? 1).
+Definition cvc_exc (f : cvfacts) (e : envl) := implb (cv_exc f) ((e_echo e =? 0) && (e_exit e =? 1)).
+Definition cvc_sound_partial (f : cvfacts) (e : envl) :=
+  implb ((e_echo e =? 1) && negb (cv_errs_noschema f)) (cv_schema f && cv_builtin f && negb (cv_final_errs f)).
+Definition cvc_invalid_errs (f : cvfacts) (e : envl) := implb (e_echo e =? 3) (cv_schema f && cv_builtin f && cv_final_errs f).
+Definition cv_clauses := [cvc_line; cvc_noline; cvc_invalid_exit; cvc_exc; cvc_sound_partial; cvc_invalid_errs].
+Lemma cli_validate_all : forall_cv (all_clauses cli_validate_env cv_clauses) = true.
+Proof. vm_compute. reflexivity. Qed.
+Lemma cli_validate_get f c : wf_cv f -> In c cv_clauses -> exists e, cli_validate_env f = Some e /\ c f e = true.
+Proof.
+  intros Hwf Hin. destruct (all_clauses_spec cli_validate_env _ f (forall_cv_sound _ cli_validate_all f Hwf)) as [e [He Hc]].
+  exists e. split; [exact He|]. apply Hc. exact Hin.
+Qed.
+(* the status line is missing only when the command fails; INVALID exits 1; any exception: no line, exit 1 *)
+Theorem cli_validate_line_and_exit f : wf_cv f -> exists e, cli_validate_env f = Some e /\
+  cvc_line f e && cvc_noline f e && cvc_invalid_exit f e && cvc_exc f e && cvc_invalid_errs f e = true.
+Proof.
+  intro Hwf. destruct (all_clauses_spec cli_validate_env _ f (forall_cv_sound _ cli_validate_all f Hwf)) as [e [He Hc]].
+  exists e. split; [exact He|].
+  rewrite (Hc cvc_line), (Hc cvc_noline), (Hc cvc_invalid_exit), (Hc cvc_exc), (Hc cvc_invalid_errs); cbn; tauto.
+Qed.
+(* PARTIAL: the VALIDATED line is sound provided the schema-less validator reports nothing (it cannot: every
+   error source of Validator.validate is guarded by a schema; measured on every case by the harness) *)
+Theorem cli_validate_validated_sound_partial f : wf_cv f -> cv_errs_noschema f = false ->
+  exists e, cli_validate_env f = Some e /\ (e_echo e = VALIDATED -> cv_schema f && cv_builtin f && negb (cv_final_errs f) = true).
+Proof.
+  intros Hwf Hn. destruct (cli_validate_get f cvc_sound_partial Hwf ltac:(cbn; tauto)) as [e [He Hc]].
+  exists e. split; [exact He|]. intro Hv. apply (implb_elim _ _ Hc). rewrite Hn, Hv. reflexivity.
+Qed.
+Definition cli_validate_validated_sound_full : Prop :=
+  forall f e, wf_cv f -> cli_validate_env f = Some e -> e_echo e = VALIDATED -> cv_schema f && cv_builtin f = true.
+(* latent path: --fix with an unknown schema name would print VALIDATED if the schema-less validator ever
+   reported an error that repair removes (`if not validation_errors: validation_status = "VALIDATED"`) *)
+Theorem cli_validate_validated_sound_refuted :
+  exists f e, wf_cv f /\ cli_validate_env f = Some e /\ e_echo e = VALIDATED /\ e_exit e = 0 /\ cv_builtin f = false.
+Proof.
+  exists (mk_cvfacts true false false false false true false false true true false 0). eexists.
+  split; [unfold wf_cv; reflexivity|]. split; [vm_compute; reflexivity|]. repeat split.
+Qed.
+
+Definition cwc_line (f : cwfacts) (e : envl) := e_echo e <? 4.
+Definition cwc_noline (f : cwfacts) (e : envl) := Bool.eqb (e_echo e =? 0) (e_exit e =? 1) && (e_exit e <? 2).
+Definition cwc_sound (f : cwfacts) (e : envl) := implb (e_echo e =? 1) (cw_schema f && cw_builtin f && negb (cw_errs f)).
+Definition cwc_invalid (f : cwfacts) (e : envl) := implb (e_echo e =? 3) (cw_schema f && cw_builtin f && cw_errs f).
+Definition cwc_exc (f : cwfacts) (e : envl) := implb (negb (cw_exc f =? 0)) ((e_echo e =? 0) && (e_exit e =? 1)).
+Definition cw_clauses := [cwc_line; cwc_noline; cwc_sound; cwc_invalid; cwc_exc].
+Lemma cli_write_all : forall_cw (all_clauses cli_write_env cw_clauses) = true.
+Proof. vm_compute. reflexivity. Qed.
+(* the status line is printed exactly when the command exits 0; VALIDATED only for a found builtin schema without
+   errors; INVALID only with errors (note: `octave write` exits 0 on INVALID, the file is written) *)
+Theorem cli_write_line_and_exit f : wf_cw f -> exists e, cli_write_env f = Some e /\
+  cwc_line f e && cwc_noline f e && cwc_sound f e && cwc_invalid f e && cwc_exc f e = true.
+Proof.
+  intro Hwf. destruct (all_clauses_spec cli_write_env _ f (forall_cw_sound _ cli_write_all f Hwf)) as [e [He Hc]].
+  exists e. split; [exact He|].
+  rewrite (Hc cwc_line), (Hc cwc_noline), (Hc cwc_sound), (Hc cwc_invalid), (Hc cwc_exc); cbn; tauto.
+Qed.
